@@ -108,7 +108,17 @@ def _concrete(modname: str, fname: str, line: str):
         val = getattr(mod, fname)(*args, **kwargs)
         return val, (args, kwargs), argtext
     except Exception as e:  # the real function raised on concrete values: also a (harness-level) reproduction
-        return ("raised", f"{type(e).__name__}: {e}"), None, argtext
+        return ("raised", f"{type(e).__name__}: {e}", _raised_in(e)), None, argtext
+
+
+def _raised_in(e):
+    """'repo' when the innermost frame of the exception is dask-expr / library code, 'harness' when it is the harness itself"""
+    import traceback
+
+    frames = traceback.extract_tb(e.__traceback__)
+    if not frames:
+        return "harness"
+    return "harness" if os.path.abspath(frames[-1].filename).startswith(os.path.join(ROOT, "")) else "repo"
 
 
 def run_harness(h: dict, scale: float = 1.0) -> Result:
@@ -142,12 +152,15 @@ def run_harness(h: dict, scale: float = 1.0) -> Result:
     if kind == "counterexample":
         val, args, argtext = _concrete(modname, fname, line)
         sig = f"{name}:{h.get('region', 'any')}"
+        if isinstance(val, tuple) and val[0] == "raised" and val[-1] == "harness":
+            return Result(name, HARNESS_ERROR, sig, f"the harness itself raised on {fname}({argtext}): {val[1]}", None, so + st, 2, extra)
         if val == 2 or (isinstance(val, tuple) and val[0] == "raised"):
             api = h.get("api_replay")
             api_msg = ""
             if api and args is not None:
                 try:
                     ok, api_msg = getattr(mod, api)(*args[0], **args[1])
+                    ok = None if ok is None else bool(ok)
                 except Exception as e:
                     ok, api_msg = None, f"api replay crashed: {type(e).__name__}: {e}"
                 if ok is False:
